@@ -43,6 +43,12 @@ def Regexp_NumSubexp (E : Flamego.Engine) (re : Regexp) : Int := ((E.compile re)
 /-- `FindStringSubmatch`: the engine's `find`; no match is the nil slice -/
 def Regexp_FindStringSubmatch (E : Flamego.Engine) (re : Regexp) (s : Bytes) : List Bytes := (E.find re s).getD []
 
+/-- `strings.Count(s, sep)` for a one-byte `sep` -/
+def strings_Count (s sep : Bytes) : Int :=
+  match sep with
+  | [c] => ((s.filter (· == c)).length : Nat)
+  | _ => 0
+
 /-- a `*bytes.Buffer` is its content -/
 abbrev Buffer := Bytes
 def Buffer_new (s : Bytes) : Buffer := s
